@@ -1,167 +1,132 @@
 //! Replays a concrete input against the real rl2tp crate (public API only) and prints what happened.
 //! Used by /verif/check to attach real-code behaviour to a failed obligation, and by `./check --replay`.
 //! The parent process re-executes itself as a child so that everything the library writes to
-//! stdout/stderr can be counted.
-use rl2tp::avp::types::{Hidden, RandomVector};
-use rl2tp::avp::AVP;
-use rl2tp::common::{Reader, SliceReader, VecWriter};
-use rl2tp::{Message, ValidateReserved, ValidateUnused, ValidateVersion, ValidationOptions};
-use std::io::Write as _;
-use std::panic::{catch_unwind, AssertUnwindSafe};
+//! stdout/stderr can be counted, and so that an abort or a hang of the library cannot take the tool down.
+//!
+//! `vf_replay search <Cxx>` runs the deterministic bounded witness search of one property (src/search.rs).
+mod cmds;
+mod corpus;
+mod ops;
+mod props_a;
+mod props_b;
+mod reference;
+mod search;
+mod util;
 
-fn unhex(s: &str) -> Vec<u8> {
-    let s: Vec<u8> = s.bytes().filter(|c| c.is_ascii_hexdigit()).collect();
-    s.chunks(2)
-        .map(|p| u8::from_str_radix(std::str::from_utf8(p).unwrap(), 16).unwrap())
-        .collect()
-}
-fn hex(b: &[u8]) -> String {
-    b.iter().map(|x| format!("{x:02x}")).collect()
-}
-fn opts(s: &str) -> ValidationOptions {
-    ValidationOptions {
-        reserved: if s.contains('r') { ValidateReserved::Yes } else { ValidateReserved::No },
-        version: if s.contains('v') { ValidateVersion::Yes } else { ValidateVersion::No },
-        unused: if s.contains('u') { ValidateUnused::Yes } else { ValidateUnused::No },
-    }
-}
+use std::io::{Read, Write as _};
+use std::time::{Duration, Instant};
 
-fn guarded<F: FnOnce() -> String>(f: F) -> String {
-    std::panic::set_hook(Box::new(|_| {}));
-    match catch_unwind(AssertUnwindSafe(f)) {
-        Ok(s) => s,
-        Err(e) => {
-            let msg = e
-                .downcast_ref::<String>()
-                .cloned()
-                .or_else(|| e.downcast_ref::<&str>().map(|s| s.to_string()))
-                .unwrap_or_else(|| "?".into());
-            format!("PANIC: {msg}")
-        }
-    }
+pub struct ChildRun {
+    pub code: Option<i32>,
+    pub signal: Option<i32>,
+    pub timed_out: bool,
+    pub stdout: Vec<u8>,
+    pub stderr: Vec<u8>,
+    pub result: Option<String>,
+    /// content of <file>.progress (search children record the running case number there)
+    pub progress: Option<Vec<u8>>,
 }
 
-fn child(args: &[String]) -> String {
-    match args[0].as_str() {
-        "decode-message" => {
-            let data = unhex(&args[1]);
-            guarded(|| {
-                let mut r = SliceReader::from(&data);
-                let res = if args[2] == "default" {
-                    Message::<&[u8]>::try_read(&mut r)
-                } else {
-                    Message::<&[u8]>::try_read_validate(&mut r, opts(&args[2]))
-                };
-                format!("RESULT: {res:?}\nREMAINING: {}", r.len())
-            })
-        }
-        "decode-avps" => {
-            let data = unhex(&args[1]);
-            guarded(|| {
-                let mut r = SliceReader::from(&data);
-                let res = AVP::try_read_greedy::<&[u8]>(&mut r);
-                format!("RESULT: {res:?}\nREMAINING: {}", r.len())
-            })
-        }
-        "reveal" => {
-            let t: u16 = args[1].parse().unwrap();
-            let value = unhex(&args[2]);
-            let secret = unhex(&args[3]);
-            let rv = unhex(&args[4]);
-            guarded(|| {
-                let h = AVP::Hidden(Hidden { attribute_type: t, value });
-                let rv = RandomVector { value: [rv[0], rv[1], rv[2], rv[3]] };
-                format!("RESULT: {:?}", h.reveal(&secret, &rv))
-            })
-        }
-        "slice-bytes" => {
-            let data = unhex(&args[1]);
-            let n: usize = args[2].parse().unwrap();
-            guarded(|| {
-                let mut r = SliceReader::from(&data);
-                let res = r.bytes(n).map(hex);
-                format!("RESULT: {res:?}\nREMAINING: {}", r.len())
-            })
-        }
-        "encode-decode-message" => {
-            // decode `hex` (must be accepted), re-encode, decode strictly again
-            let data = unhex(&args[1]);
-            guarded(|| {
-                let mut r = SliceReader::from(&data);
-                let m = Message::<&[u8]>::try_read_validate(&mut r, opts(&args[2]));
-                match m {
-                    Err(e) => format!("RESULT: first decode Err({e:?})"),
-                    Ok(m) => {
-                        let mut w = VecWriter::new();
-                        m.write(&mut w);
-                        let mut r2 = SliceReader::from(&w.data);
-                        let m2 = Message::<&[u8]>::try_read_validate(&mut r2, opts("rvu"));
-                        format!("DECODED: {m:?}\nENCODED: {}\nRESULT: {m2:?}\nREMAINING: {}", hex(&w.data), r2.len())
-                    }
+static RUN_SEQ: std::sync::atomic::AtomicU32 = std::sync::atomic::AtomicU32::new(0);
+
+/// run `vf_replay --child <file> <args..>`; the child writes its result to <file>; its stdout/stderr are captured
+pub fn run_child(args: &[String], timeout: Duration) -> ChildRun {
+    use std::process::{Command, Stdio};
+    let exe = std::env::current_exe().unwrap();
+    let seq = RUN_SEQ.fetch_add(1, std::sync::atomic::Ordering::SeqCst);
+    let tmp = std::env::temp_dir().join(format!("vf_replay_{}_{}.out", std::process::id(), seq));
+    let _ = std::fs::remove_file(&tmp);
+    let mut child = Command::new(exe)
+        .arg("--child")
+        .arg(&tmp)
+        .args(args)
+        .stdin(Stdio::null())
+        .stdout(Stdio::piped())
+        .stderr(Stdio::piped())
+        .spawn()
+        .unwrap();
+    let mut so = child.stdout.take().unwrap();
+    let mut se = child.stderr.take().unwrap();
+    let t1 = std::thread::spawn(move || {
+        let mut v = vec![];
+        let _ = so.read_to_end(&mut v);
+        v
+    });
+    let t2 = std::thread::spawn(move || {
+        let mut v = vec![];
+        let _ = se.read_to_end(&mut v);
+        v
+    });
+    let start = Instant::now();
+    let mut timed_out = false;
+    let status = loop {
+        match child.try_wait().unwrap() {
+            Some(s) => break s,
+            None => {
+                if start.elapsed() > timeout {
+                    timed_out = true;
+                    let _ = child.kill();
+                    break child.wait().unwrap();
                 }
-            })
+                std::thread::sleep(Duration::from_millis(if start.elapsed() < Duration::from_millis(200) { 1 } else { 20 }));
+            }
         }
-        "bitmask" => {
-            use rl2tp::avp::types::*;
-            let x = args[2] == "true";
-            let y = args[3] == "true";
-            guarded(|| match args[1].as_str() {
-                "BearerCapabilities" => {
-                    let v = BearerCapabilities::new(x, y);
-                    format!("RESULT: new(digital={x}, analog={y}) -> is_digital_access_supported={} is_analog_access_supported={}",
-                        v.is_digital_access_supported(), v.is_analog_access_supported())
-                }
-                "FramingCapabilities" => {
-                    let v = FramingCapabilities::new(x, y);
-                    format!("RESULT: new(async={x}, sync={y}) -> is_async_framing_supported={} is_sync_framing_supported={}",
-                        v.is_async_framing_supported(), v.is_sync_framing_supported())
-                }
-                "BearerType" => {
-                    let v = BearerType::new(x, y);
-                    format!("RESULT: new(analog={x}, digital={y}) -> is_analog_request={} is_digital_request={}",
-                        v.is_analog_request(), v.is_digital_request())
-                }
-                "FramingType" => {
-                    let v = FramingType::new(x, y);
-                    format!("RESULT: new(analog={x}, digital={y}) -> is_analog_request={} is_digital_request={}",
-                        v.is_analog_request(), v.is_digital_request())
-                }
-                k => format!("unknown kind {k}"),
-            })
-        }
-        c => format!("unknown command {c}"),
-    }
+    };
+    let stdout = t1.join().unwrap_or_default();
+    let stderr = t2.join().unwrap_or_default();
+    let result = std::fs::read_to_string(&tmp).ok();
+    let _ = std::fs::remove_file(&tmp);
+    let ptmp = std::path::PathBuf::from(format!("{}.progress", tmp.display()));
+    let progress = std::fs::read(&ptmp).ok();
+    let _ = std::fs::remove_file(&ptmp);
+    #[cfg(unix)]
+    let signal = {
+        use std::os::unix::process::ExitStatusExt;
+        status.signal()
+    };
+    #[cfg(not(unix))]
+    let signal = None;
+    ChildRun { code: status.code(), signal, timed_out, stdout, stderr, result, progress }
 }
 
 fn main() {
     let args: Vec<String> = std::env::args().skip(1).collect();
     if args.is_empty() {
-        eprintln!("usage: vf_replay <command> <args..>");
+        eprintln!("usage: vf_replay <command> <args..>\n{}", cmds::USAGE);
         std::process::exit(2);
     }
     if args[0] == "--child" {
         let out_path = &args[1];
-        let s = child(&args[2..]);
+        if args[2] == "search" {
+            // the search child appends to its result file as it goes (it may be killed at any moment)
+            search::child_main(out_path, &args[3..]);
+            return;
+        }
+        let s = cmds::child(&args[2..]);
         std::fs::write(out_path, s).unwrap();
         return;
     }
-    let exe = std::env::current_exe().unwrap();
-    let tmp = std::env::temp_dir().join(format!("vf_replay_{}.out", std::process::id()));
-    let out = std::process::Command::new(exe)
-        .arg("--child")
-        .arg(&tmp)
-        .args(&args)
-        .output()
-        .unwrap();
-    let res = std::fs::read_to_string(&tmp).unwrap_or_else(|_| "CHILD DIED (abort / signal)".into());
-    let _ = std::fs::remove_file(&tmp);
+    if args[0] == "search" {
+        let code = search::parent_main(&args[1..]);
+        std::io::stdout().flush().unwrap();
+        std::process::exit(code);
+    }
+    let out = run_child(&args, Duration::from_secs(60));
+    let res = match &out.result {
+        Some(r) => r.clone(),
+        None if out.timed_out => "CHILD TIMED OUT (no result after 60 s; possible non-termination)".into(),
+        None => "CHILD DIED (abort / signal)".into(),
+    };
     println!("COMMAND: {}", args.join(" "));
     println!("{res}");
-    println!("EXIT: {:?}", out.status.code());
+    println!("EXIT: {:?}{}", out.code, out.signal.map(|s| format!(" SIGNAL: {s}")).unwrap_or_default());
     println!("STDOUT_BYTES: {}", out.stdout.len());
     println!("STDERR_BYTES: {}", out.stderr.len());
     if !out.stdout.is_empty() {
         println!("STDOUT_HEAD: {:?}", String::from_utf8_lossy(&out.stdout[..out.stdout.len().min(200)]));
+    }
+    if !out.stderr.is_empty() {
+        println!("STDERR_HEAD: {:?}", String::from_utf8_lossy(&out.stderr[..out.stderr.len().min(200)]));
     }
     std::io::stdout().flush().unwrap();
 }
